@@ -5,23 +5,27 @@ namespace PdtVerif.SeqScore
 variable {Value Scores : Type}
 
 /-- Every `sample` of the sequence that drew something reports, for the values it drew, the
-scores `log_prob` computes for them (for one walk this is `C07_walk`). -/
+scores `log_prob` computes for them (for one walk this is `C07_walk`), and `log_prob` does not
+raise on what was drawn. -/
 def SamplesScored (cfg : DistCfg Value Scores) : List (DistOp Value Scores) → Prop
   | [] => True
-  | .sample e d w :: ops => (e = false → w = cfg.score d) ∧ SamplesScored cfg ops
+  | .sample e d w :: ops => (e = false → w = cfg.score d ∧ cfg.raises d = false) ∧
+      SamplesScored cfg ops
   | .logProb _ :: ops => SamplesScored cfg ops
   | .clearCache :: ops => SamplesScored cfg ops
 
-/-- The invariant: a cached value is cached together with its own scores. -/
+/-- The invariant: a cached value is cached together with its own scores (and scoring it does
+not raise). -/
 def CacheOk (cfg : DistCfg Value Scores) (st : DistCache Value Scores) : Prop :=
-  ∀ c, st.samples = some c → st.logProbs = some (cfg.score c)
+  ∀ c, st.samples = some c → st.logProbs = some (cfg.score c) ∧ cfg.raises c = false
 
 theorem cacheOk_empty (cfg : DistCfg Value Scores) : CacheOk cfg DistCache.empty := by
   intro c h
   simp [DistCache.empty] at h
 
 theorem cacheOk_sample (cfg : DistCfg Value Scores) (st : DistCache Value Scores) (e : Bool)
-    (d : Value) (w : Scores) (hst : CacheOk cfg st) (hw : e = false → w = cfg.score d) :
+    (d : Value) (w : Scores) (hst : CacheOk cfg st)
+    (hw : e = false → w = cfg.score d ∧ cfg.raises d = false) :
     CacheOk cfg (sampleStep cfg st e d w) := by
   unfold sampleStep
   split
@@ -31,30 +35,52 @@ theorem cacheOk_sample (cfg : DistCfg Value Scores) (st : DistCache Value Scores
     · intro c hc
       have hd : d = c := by simpa using hc
       subst hd
-      simp [hw (by simpa using he)]
+      have := hw (by simpa using he)
+      simp [this.1, this.2]
     · exact hst
 
-theorem logProbStep_ref [DecidableEq Value] (cfg : DistCfg Value Scores)
-    (st : DistCache Value Scores) (v : Value) (hst : CacheOk cfg st) :
-    (logProbStep cfg st v).1 = refLogProb cfg v ∧ CacheOk cfg (logProbStep cfg st v).2 := by
+/-- The call does not reach a raising scorer: the value is rejected by validation, or it is the
+empty sample, or scoring it does not raise. -/
+def Scorable (cfg : DistCfg Value Scores) (v : Value) : Prop :=
+  (validating cfg.validateArgs && !cfg.valid v) = true ∨ cfg.isEmpty v = true ∨
+    cfg.raises v = false
+
+/-- One `log_prob` from a consistent cache answers as the reference and leaves a consistent
+cache — for the repaired write order always, for the pinned one (`_samples_cache` written before
+scoring) when caching is off or the call does not reach a raising scorer. -/
+theorem logProbStep_ref [DecidableEq Value] (pinned : Bool) (cfg : DistCfg Value Scores)
+    (st : DistCache Value Scores) (v : Value) (hst : CacheOk cfg st)
+    (hp : pinned = true → cfg.cacheSamples = true → Scorable cfg v) :
+    (logProbStep pinned cfg st v).1 = refLogProb cfg v ∧
+      CacheOk cfg (logProbStep pinned cfg st v).2 := by
   unfold logProbStep refLogProb
   cases h1 : (validating cfg.validateArgs && !cfg.valid v)
   · cases h2 : cfg.isEmpty v
     · cases h3 : (cfg.cacheSamples && decide (st.samples = some v))
-      · cases h4 : cfg.cacheSamples
-        · simp only [Bool.false_eq_true, if_false]
-          exact ⟨by first | rfl | trivial, hst⟩
+      · cases h5 : cfg.raises v
+        · cases h4 : cfg.cacheSamples
+          · simp only [Bool.false_eq_true, if_false]
+            exact ⟨by first | rfl | trivial, hst⟩
+          · simp only [Bool.false_eq_true, if_false, if_true]
+            refine ⟨by first | rfl | trivial, ?_⟩
+            intro c hc
+            have hd : v = c := by simpa using hc
+            subst hd
+            exact ⟨rfl, h5⟩
         · simp only [Bool.false_eq_true, if_false, if_true]
           refine ⟨by first | rfl | trivial, ?_⟩
-          intro c hc
-          have hd : v = c := by simpa using hc
-          subst hd
-          rfl
+          cases hpc : (pinned && cfg.cacheSamples)
+          · simpa using hst
+          · simp only [Bool.and_eq_true] at hpc
+            rcases hp hpc.1 hpc.2 with h | h | h
+            · rw [h1] at h; cases h
+            · rw [h2] at h; cases h
+            · rw [h5] at h; cases h
       · have hs : st.samples = some v := by
           simp only [Bool.and_eq_true, decide_eq_true_eq] at h3
           exact h3.2
         simp only [Bool.false_eq_true, if_false, if_true]
-        rw [hst v hs]
+        rw [(hst v hs).1, (hst v hs).2]
         exact ⟨by first | rfl | trivial, hst⟩
     · simp only [Bool.false_eq_true, if_false, if_true]
       exact ⟨by first | rfl | trivial, hst⟩
@@ -63,31 +89,41 @@ theorem logProbStep_ref [DecidableEq Value] (cfg : DistCfg Value Scores)
 
 /-- **The cache is transparent**: from any state that satisfies the invariant, every `log_prob`
 of a sequence of `sample` / `log_prob` / `clear_cache` calls returns what a distribution that
-never caches returns. -/
-theorem runDist_eq_ref [DecidableEq Value] (cfg : DistCfg Value Scores) :
+never caches returns. With the pinned write order this needs: caching off, or no `log_prob` of
+the sequence reaches a raising scorer. -/
+theorem runDist_eq_ref [DecidableEq Value] (pinned : Bool) (cfg : DistCfg Value Scores) :
     ∀ (ops : List (DistOp Value Scores)) (st : DistCache Value Scores),
       CacheOk cfg st → SamplesScored cfg ops →
-      runDist cfg st ops = (logProbArgs ops).map (refLogProb cfg)
-  | [], _, _, _ => rfl
-  | .sample e d w :: ops, st, hst, hs => by
+      (pinned = true → cfg.cacheSamples = true → ∀ v ∈ logProbArgs ops, Scorable cfg v) →
+      runDist pinned cfg st ops = (logProbArgs ops).map (refLogProb cfg)
+  | [], _, _, _, _ => rfl
+  | .sample e d w :: ops, st, hst, hs, hp => by
     simp only [runDist, logProbArgs]
-    exact runDist_eq_ref cfg ops _ (cacheOk_sample cfg st e d w hst hs.1) hs.2
-  | .logProb v :: ops, st, hst, hs => by
+    exact runDist_eq_ref pinned cfg ops _ (cacheOk_sample cfg st e d w hst hs.1) hs.2
+      (by simpa [logProbArgs] using hp)
+  | .logProb v :: ops, st, hst, hs, hp => by
     simp only [runDist, logProbArgs, List.map_cons]
-    have h := logProbStep_ref cfg st v hst
-    rw [h.1, runDist_eq_ref cfg ops _ h.2 hs]
-  | .clearCache :: ops, st, _, hs => by
+    have h := logProbStep_ref pinned cfg st v hst
+      (fun h1 h2 => hp h1 h2 v (by simp [logProbArgs]))
+    rw [h.1, runDist_eq_ref pinned cfg ops _ h.2 hs
+      (fun h1 h2 w hw => hp h1 h2 w (by simp [logProbArgs, hw]))]
+  | .clearCache :: ops, st, _, hs, hp => by
     simp only [runDist, logProbArgs]
-    exact runDist_eq_ref cfg ops _ (cacheOk_empty cfg) hs
+    exact runDist_eq_ref pinned cfg ops _ (cacheOk_empty cfg) hs
+      (by simpa [logProbArgs] using hp)
 
 theorem refLogProb_error_iff (cfg : DistCfg Value Scores) (v : Value) (e : DistErr) :
     refLogProb cfg v = .error e ↔
-      e = .valueError ∧ cfg.validateArgs ≠ some false ∧ cfg.valid v = false := by
+      (e = .valueError ∧ cfg.validateArgs ≠ some false ∧ cfg.valid v = false) ∨
+      (e = .scoring ∧ (cfg.validateArgs = some false ∨ cfg.valid v = true) ∧
+        cfg.isEmpty v = false ∧ cfg.raises v = true) := by
   unfold refLogProb validating
   cases hva : cfg.validateArgs with
   | none =>
-    cases hv : cfg.valid v <;> cases hemp : cfg.isEmpty v <;> cases e <;> simp
+    cases hv : cfg.valid v <;> cases hemp : cfg.isEmpty v <;> cases hr : cfg.raises v <;>
+      cases e <;> simp
   | some b =>
-    cases b <;> cases hv : cfg.valid v <;> cases hemp : cfg.isEmpty v <;> cases e <;> simp
+    cases b <;> cases hv : cfg.valid v <;> cases hemp : cfg.isEmpty v <;>
+      cases hr : cfg.raises v <;> cases e <;> simp
 
 end PdtVerif.SeqScore
